@@ -1,11 +1,17 @@
 #!/bin/bash
-# runs every ready check's thorough tier sequentially; results in notes/thorough-results.txt
+# runs the named checks' thorough tier sequentially; results in notes/thorough-results.txt.
+# The /repo tree lock is held only while the harness is built (the run itself does not read /repo).
 cd /verif
 out=notes/thorough-results.txt
 echo "# thorough runs started $(date -u +%FT%TZ) at /repo $(git -C /repo log --oneline -1 | cut -d' ' -f1)" >> $out
+mkdir -p target/thorough-bin
 for c in "$@"; do
+  pkg="agv-$(echo "$c" | tr 'A-Z' 'a-z')"
   s=$(date +%s)
-  flock /tmp/repo-tree.lock ./check $c thorough > /tmp/thorough-$c.log 2>&1; code=$?
+  if ! flock /tmp/repo-tree.lock bash -c "git -C /repo diff --quiet && CARGO_NET_OFFLINE=true cargo build --offline --profile agv -p $pkg >target/build-$pkg.log 2>&1 && cp target/agv/$pkg target/thorough-bin/$pkg"; then
+    echo "$c build failed or /repo tree dirty" >> $out; continue
+  fi
+  AGV_ROOT=/verif target/thorough-bin/$pkg $c thorough > /tmp/thorough-$c.log 2>&1; code=$?
   e=$(date +%s)
   echo "$c exit=$code wall=$((e-s))s $(grep -E '^\[C[0-9]+ thorough\]' /tmp/thorough-$c.log | head -1) known=$(grep -c '^KNOWN-FINDING' /tmp/thorough-$c.log) violations=$(grep -c '^VIOLATION' /tmp/thorough-$c.log)" >> $out
 done
